@@ -162,7 +162,9 @@ func (s *ledgerSim) history(sc *Scan, rng *rand.Rand) {
 }
 
 func (s *ledgerSim) finish(sc *Scan) {
-	s.history(sc, s.rng)
+	if s.hist != nil || sc.Comm != nil && len(sc.Comm) > 0 {
+		s.history(sc, s.rng)
+	}
 	t := new(big.Int)
 	for _, a := range sc.Accounts {
 		t.Add(t, new(big.Int).SetUint64(a.V))
@@ -282,6 +284,16 @@ func (s *ledgerSim) block(b BlockSpec, note string) (ok bool) {
 	blk := new(lib.Block)
 	_ = lib.Unmarshal(p.block, blk)
 	line.Included = len(blk.Transactions)
+	// the state the proposed header commits to (the mempool's working copy after CheckMempool, failing transactions
+	// dropped): the ledger equations must already hold there
+	if ps, e := n.scanProposal(); e == nil {
+		hist := s.hist
+		s.hist = nil
+		s.finish(ps)
+		s.hist = hist
+		ps.HistOK, ps.HistChecked = true, 0
+		_ = s.out.Encode(LedgerLine{Kind: "proposal", Run: s.run, Scan: ps, Small: s.small, Included: line.Included, Note: note})
+	}
 	// certificate results: reward recipients and double signers as the script says
 	if len(b.PayTo) > 0 {
 		var pp []*lib.PaymentPercents
